@@ -48,6 +48,13 @@ func runCore(t *rapid.T, isValue bool) {
 				s.ReadMask = nil
 			}
 		}
+		if !isValue && rapid.IntRange(0, 2).Draw(t, "filteredView") == 1 {
+			// a filtered view: what the collection makes of a change for this subscriber (an entry, an exit, a projection)
+			// is built from the stored messages, which stay as they are
+			s.IncludeName = rapid.SampledFrom([]string{"id<b", "counter-odd", "has-derived"}).Draw(t, "include")
+			s.Include = rlib.IncludeFn(s.IncludeName)
+			lib.Ev.Class("core: a filtered (and perhaps masked) subscription")
+		}
 		subs = append(subs, s)
 	}
 	r := rlib.NewRunner(cfg)
